@@ -829,9 +829,34 @@ class Exec:
             r = hook(self, st, e)
             if r is not None:
                 return r
-        # f-strings are only used as messages: opaque string term (contents dropped, listed in evidence)
-        self.note_ignored(e, 'f-string contents (kept as opaque string)')
-        return [('ok', st, fresh('fstr', z3.StringSort()))]
+        # f-strings are only used as messages: the resulting TEXT is an opaque string term (listed in evidence) -- but a CALL inside a replacement field
+        # is evaluated like any other call: it may raise, and an exception raised while a message is being built propagates like any other
+        # (calls known to be total are skipped; operators and format specs applied to the values are assumed not to raise)
+        TOTAL = ('len', 'repr', 'str', 'type', 'id', 'round', 'int', 'float', 'abs', 'perf_counter', 'time.perf_counter', 'monotonic', 'time.monotonic', 'time.time',
+                 'multiprocessing.current_process', 'threading.current_thread', 'current_thread', 'current_process', 'os.getpid')
+        todo = []
+
+        def outer_calls(n):
+            if isinstance(n, ast.Call):
+                src = ast.unparse(n.func)
+                if src in TOTAL or self.unit.is_ignored_call(src):
+                    for a in list(n.args) + [k.value for k in n.keywords]:
+                        outer_calls(a)
+                else:
+                    todo.append(n)
+                return
+            for c in ast.iter_child_nodes(n):
+                outer_calls(c)
+        for part in e.values:
+            if isinstance(part, ast.FormattedValue):
+                outer_calls(part.value)
+        self.note_ignored(e, 'f-string text (kept as opaque string)' + ('; calls inside it are evaluated' if todo else ''))
+
+        def go(s, k):
+            if k == len(todo):
+                return [('ok', s, fresh('fstr', z3.StringSort()))]
+            return self.bind(self.ev(todo[k], s), lambda s2, _v: go(s2, k + 1))
+        return go(st, 0)
 
     def ev_Lambda(self, e, st):
         return [('ok', st, Closure(e, self))]
@@ -1118,6 +1143,21 @@ class Exec:
                 self.note_ignored(n, '`del` statement dropped (refcycle clean-up)')
                 return [('ok', s, None)]
             return self.lift(self.bind(self.ev(t.value, st), f))
+        if len(n.targets) == 1 and isinstance(n.targets[0], ast.Attribute):
+            # `del obj.attr` on a modelled object removes the field (a later hasattr / getattr sees it gone)
+            t = n.targets[0]
+
+            def g(s, base):
+                b = unbox_handle(self, base)
+                if isinstance(b, Obj) and b.has(s, t.attr):
+                    if getattr(b, 'immutable', False):
+                        raise Unsupported(f'del of attribute `{t.attr}` of an object the contract declares immutable')
+                    s = s.fork()
+                    del s.heap[(b.oid, t.attr)]
+                    return [('ok', s, None)]
+                self.note_ignored(n, '`del` statement dropped (refcycle clean-up)')
+                return [('ok', s, None)]
+            return self.lift(self.bind(self.ev(t.value, st), g))
         self.note_ignored(n, '`del` statement dropped (refcycle clean-up)')
         return [('normal', st, None)]
 
@@ -1836,7 +1876,7 @@ def _b_getattr(ex, e, st):
 
     def f(s, base):
         base = unbox_handle(ex, base)
-        if isinstance(base, Obj) and len(e.args) == 3 and not base.has(s, name) and not hasattr(base, 'm_' + name) and not hasattr(base, 'a_' + name):
+        if isinstance(base, Obj) and len(e.args) == 3 and not base.has(s, name) and not hasattr(base, 'm_' + name) and not hasattr(base, 'a_' + name) and name not in getattr(base, 'volatile', ()):
             return ex.ev(e.args[2], s)
         return ex.getattr(s, base, name, e)
     return ex.bind(ex.ev(e.args[0], st), f)
